@@ -145,7 +145,7 @@ def run(ctx):
                 ctx.known_finding(fnd[0], why.split('\n')[0][:200])
             else:
                 ctx.violation(case, 'regression corpus %s: %s' % (os.path.basename(path), why))
-    failures = hyp.fan_out(ctx, 'pylib.props.c01', 'gen_case', 500 if quick else 25000, extra={'tier': ctx.tier})
+    failures = hyp.fan_out(ctx, 'pylib.props.c01', 'gen_case', 900 if quick else 30000, extra={'tier': ctx.tier})
     seen = set()
     for f in failures:
         c = category(f['why'])
